@@ -9,8 +9,10 @@ Driver handlers for C10 (session setup, sub-contexts, pseudorandom zero shares, 
 Line formats (harness/c10.go, harness/c10_run.go); `<desc>` = five tokens
 `<ids> <r1b: id;ck;com,…> <r2b: id;msg;wit,…> <r2u: from;to;com,…> <r3u: from;to;msg;wit,…>`:
 
-* `setup <desc> => id;sid;extract;peer=seed&…|…`
-* `subctx <desc> <parent outputs> => q.q.q|id;sid;extract;peer=seed&…|…,…`  (also `outer>inner|…`)
+* `setup <desc> <params> => id;sid;extract;peer=seed&…|…`
+* `subctx <desc> <params> <parent outputs> => q.q.q|id;sid;extract;peer=seed&…|…,…`  (also `outer>…>inner|…`)
+* `newctx <ids> <commonSeed> <i;j;seed,…> <params> => id;sid;extract;peer=seed&…|…` (`err`/`ok` per party if rejected)
+  `<params>` = `extractLabel;extractLen;seedLen;appendLabel|-;appendMsg|-` (what the harness reads from a context)
 * `xsession <n> => <outputs of session 1>,<outputs of session 2>,…`
 * `przs <group> <ids> <sid> => q.q.q|id;share;peer=v&…|…,…`
 * `fault <desc> <kind;field;from;to;value,…> => <round>|id=outcome&…`
@@ -33,14 +35,29 @@ def hashes : Hashes :=
 /-- hashcom: BLAKE2b-256 keyed with the commitment key over `message ‖ witness` -/
 def commitOracle : Bytes → Bytes → Bytes := fun k x => ofBA (Hash.blake2b (toBA k) (toBA x) 32)
 
-/-- label and length of the harness's transcript extraction (c10CtxOut) -/
-def extractLabel : Bytes := ascii "C10-extract"
-def seedBytes : Nat := 32
+/-- what the harness reads from every context (c10CtxOut): `extLen` bytes extracted under `extLabel`
+from a clone of the transcript (after appending `(appLabel, appMsg)` to the clone when present) and
+the first `seedLen` bytes of every pairwise seed -/
+structure Params where
+  extLabel : Bytes
+  extLen : Nat
+  seedLen : Nat
+  app : Option (Bytes × Bytes)
 
 /-! ### parsing -/
 
 def bytes? (s : String) : Option Bytes := (hexToBytes? s).map ofBA
 def hexOf (b : Bytes) : String := bytesToHex (toBA b)
+
+def parseParams? (s : String) : Option Params :=
+  match s.splitOn ";" with
+  | [l, n, m, al, am] => do
+    let extLabel ← bytes? l
+    let extLen ← n.toNat?
+    let seedLen ← m.toNat?
+    let app ← (if al == "-" then some none else do some (some (← bytes? al, ← bytes? am)))
+    some { extLabel, extLen, seedLen, app }
+  | _ => none
 
 structure Desc where
   ids : List Nat
@@ -108,9 +125,10 @@ def pairSeeds (outs : List CtxOut) : List Bytes :=
 
 /-- agreement inside one (sub)quorum `q` (sorted): members, equal sid/extract, symmetric seeds,
 pairwise different seeds.  `pre` prefixes the violation keys. -/
-def checkQuorum (pre : String) (q : List Nat) (outs : List CtxOut) : Option Verdict :=
+def checkQuorum (p : Params) (pre : String) (q : List Nat) (outs : List CtxOut) : Option Verdict :=
+  if p.extLen < 16 || p.seedLen < 16 then some (.unsupported "read lengths below 16 bytes") else
   if outs.map (·.id) != q then some (.bad (pre ++ "members") "the contexts are not those of the (sub)quorum members") else
-  if !outs.all (fun c => c.sid.length == 32 && c.ext.length == 32 && c.seeds.all (·.2.length == seedBytes)) then
+  if !outs.all (fun c => c.sid.length == 32 && c.ext.length == p.extLen && c.seeds.all (·.2.length == p.seedLen)) then
     some (.unsupported "output lengths") else
   if !allEq (outs.map (·.sid)) then some (.bad (pre ++ "sid-agree") "parties hold different session ids") else
   if !allEq (outs.map (·.ext)) then some (.bad (pre ++ "transcript-agree") "parties hold different transcript states") else
@@ -135,9 +153,12 @@ def contribOf (d : Desc) (a b : Nat) : Bytes :=
 
 def modelCtx (H : Hashes) (d : Desc) (i : Nat) : Ctx := honestContext H i d.ids (viewOf d) (contribOf d)
 
-def ctxOutOf (H : Hashes) (c : Ctx) : CtxOut :=
-  { id := c.holder, sid := c.sid, ext := tExtract H c.tlog extractLabel 32,
-    seeds := c.seeds.map fun kv => (kv.1, kv.2.read H seedBytes) }
+def ctxOutOf (H : Hashes) (p : Params) (c : Ctx) : CtxOut :=
+  let log := match p.app with
+    | some (l, m) => c.tlog ++ tAppend l m
+    | none => c.tlog
+  { id := c.holder, sid := c.sid, ext := tExtract H log p.extLabel p.extLen,
+    seeds := c.seeds.map fun kv => (kv.1, kv.2.read H p.seedLen) }
 
 /-- one entry of a `subctx` line: `q.q.q|ctx|ctx…` or nested `outer>inner|ctx|…` -/
 structure SubEntry where
@@ -265,25 +286,25 @@ def cheatsOn (d : Desc) (ts : List Tamper) (me s : Nat) : Bool :=
 
 def handle (op : String) (args : List String) (rhs : String) : Verdict :=
   match op, args with
-  | "setup", [a, b, c, d, e] =>
-    match parseDesc? a b c d e, parseCtxOuts? rhs with
-    | some desc, some outs =>
-      match checkQuorum "" (sortIds desc.ids) outs with
+  | "setup", [a, b, c, d, e, ps] =>
+    match parseDesc? a b c d e, parseParams? ps, parseCtxOuts? rhs with
+    | some desc, some p, some outs =>
+      match checkQuorum p "" (sortIds desc.ids) outs with
       | some v => v
       | none =>
         let H := hashes
-        mirror ("|".intercalate ((sortIds desc.ids).map fun i => renderCtxOut (ctxOutOf H (modelCtx H desc i)))) rhs
-    | _, _ => .unsupported "setup args"
-  | "subctx", [a, b, c, d, e, parent] =>
-    match parseDesc? a b c d e, parseCtxOuts? parent with
-    | some desc, some pouts =>
+        mirror ("|".intercalate ((sortIds desc.ids).map fun i => renderCtxOut (ctxOutOf H p (modelCtx H desc i)))) rhs
+    | _, _, _ => .unsupported "setup args"
+  | "subctx", [a, b, c, d, e, ps, parent] =>
+    match parseDesc? a b c d e, parseParams? ps, parseCtxOuts? parent with
+    | some desc, some p, some pouts =>
       match parseSubEntries? rhs with
       | none => .unsupported "subctx entries"
       | some es =>
         let psid := (pouts.head?.map (·.sid)).getD []
         -- per sub-quorum: agreement between its members
         match es.findSome? (fun en =>
-            match checkQuorum "subctx-" en.quorum en.outs with
+            match checkQuorum p "subctx-" en.quorum en.outs with
             | some v => some v
             | none => if en.outs.all (·.sid == psid) then none
                       else some (.bad "subctx-sid" ("sub-context " ++ en.key ++ " does not carry the session id"))) with
@@ -295,11 +316,33 @@ def handle (op : String) (args : List String) (rhs : String) : Verdict :=
           if !distinct exts then .bad "subctx-separate" "two different sub-quorums (or parent) share a transcript state" else
           if !distinct seeds then .bad "subctx-seed-separate" "two different sub-quorums (or parent) share a pairwise seed" else
           let H := hashes
+          let parents := (sortIds desc.ids).map fun i => (i, modelCtx H desc i)
           let model := es.map fun en =>
             en.key ++ "|" ++ "|".intercalate (en.quorum.map fun i =>
-              renderCtxOut (ctxOutOf H (en.chain.foldl (subContext H) (modelCtx H desc i))))
+              renderCtxOut (ctxOutOf H p (en.chain.foldl (subContext H) ((parents.lookup i).getD (modelCtx H desc i)))))
           mirror (joinComma model) rhs
-    | _, _ => .unsupported "subctx args"
+    | _, _, _ => .unsupported "subctx args"
+  | "newctx", [a, cs, prs, ps] =>
+    match parseNatList? a, bytes? cs, parseParams? ps, (splitComma prs).mapM (fun t => match t.splitOn ";" with
+        | [i, j, x] => do some ((← hexToNat? i, ← hexToNat? j), ← bytes? x)
+        | _ => none) with
+    | some ids, some common, some p, some prs =>
+      let q := sortIds ids
+      let seedFor (i j : Nat) : Bytes := (prs.lookup (min i j, max i j)).getD []
+      -- `NewContext` rejects a common seed or a pairwise seed of fewer than 32 bytes
+      let rejects (i : Nat) : Bool := common.length < 32 || (q.filter (· != i)).any fun j => (seedFor i j).length < 32
+      if q.any rejects then
+        mirror ("|".intercalate (q.map fun i => if rejects i then "err" else "ok")) rhs
+      else
+      match parseCtxOuts? rhs with
+      | none => .diff "all parties obtain a context"
+      | some outs =>
+        match checkQuorum p "newctx-" q outs with
+        | some v => v
+        | none =>
+          let H := hashes
+          mirror ("|".intercalate (q.map fun i => renderCtxOut (ctxOutOf H p (newContext H i ids common (seedFor i))))) rhs
+    | _, _, _, _ => .unsupported "newctx args"
   | "xsession", [_] =>
     match (splitComma rhs).mapM parseCtxOuts? with
     | none => .unsupported "xsession rhs"
